@@ -200,16 +200,38 @@ def rule_accumulation(ctx, rule='R17.5'):
             return (b.get('referencedDecl', {}).get('id'), e['name'])
         return None
     reads = set()
+    nan_tested = set()       # (parameter, member) tested for NaN: x != x, or isnan(x)
+    cross = {}
     for y in walk(cfront.body(pfn)):
+        if y.get('kind') == 'CallExpr' and callee_name(y) in ('isnan', '__builtin_isnan') and call_args(y):
+            a = _side(call_args(y)[0])
+            if a:
+                nan_tested.add(a)
         if y.get('kind') == 'BinaryOperator' and y.get('opcode') in ('!=', '=='):
             a, b = _side(y['inner'][0]), _side(y['inner'][1])
             if a and b:
                 n += 1
-                if a[1] == b[1] and a[0] != b[0] and {a[0], b[0]} <= set(params):
+                if a == b and a[0] in params:
+                    nan_tested.add(a)          # x != x: the NaN test
+                elif a[1] == b[1] and a[0] != b[0] and {a[0], b[0]} <= set(params):
                     reads.add(a[1])
+                    cross[a[1]] = (a, b, y)
                 else:
                     ctx.report(rule, 'particle_diff:operands:' + a[1], 'src/binarydiff.c:%s reb_particle_diff' % line_of(y),
                                'the comparison %s does not compare one member of the first particle with the same member of the second' % render(y))
+    # R17.9 reflexivity: a simulation equals its own copy in every state, a particle flagged for removal from the tree
+    # (y = NaN) included. `a != b` is true for two NaNs, so the comparison of a floating-point member has to let the
+    # both-NaN case through (a NaN test of both operands in the function)
+    nrefl = 0
+    for mem, (a, b, y) in sorted(cross.items()):
+        mt = [m_.ctype for m_ in recs['reb_particle'].members if m_.name == mem]
+        if not mt or mt[0] not in ('double', 'float'):
+            continue
+        nrefl += 1
+        if not (a in nan_tested and b in nan_tested):
+            ctx.report('R17.9', 'particle_diff:reflexive:' + mem, 'src/binarydiff.c:%s reb_particle_diff' % line_of(y),
+                       'member %s is compared with %s only: two NaNs count as a difference, so a simulation holding a NaN there (a particle flagged for removal from the tree has y = NaN) compares unequal to its own copy and to its own restored snapshot' % (mem, render(y)))
+    ctx.covered('R17.9', 'floating-point members compared by reb_particle_diff: both-NaN is not a difference (the comparison is reflexive)', nrefl, floor=10)
     for m in recs['reb_particle'].members:
         n += 1
         if '*' in m.ctype:
